@@ -162,6 +162,11 @@ class MemView:
         return self.ex._load_raw(self.bytes, self.mem, ptr, nbytes, None)
 
     def load_ptr(self, ptr):
+        if self.typed and isinstance(ptr, Ptr) and (ptr.obj is None or ptr.obj.kind == 'extglobal'):
+            base, off = self.ex._addr_key(self.ex.ptr_to_bv(ptr))
+            v = self.typed.get((base, off, self.ex.pbytes))
+            if v is not None:
+                return Ptr(None, v)
         v = self.ex._load_raw(self.bytes, self.mem, ptr, self.ex.pbytes, None, want_ptr=True)
         return v
 
@@ -525,6 +530,11 @@ class Engine:
         rty = self.mod.resolve(ty)
         if isinstance(rty, ir.PtrTy):
             self._bounds_ob(st, ptr, self.pbytes, ins)
+            if (ptr.obj is None or ptr.obj.kind == 'extglobal') and st.typed:
+                base, off = self._addr_key(self.ptr_to_bv(ptr))
+                v = st.typed.get((base, off, self.pbytes))
+                if v is not None:
+                    return self.bv_to_ptr(st, v)
             return self._load_raw(st.bytes, st.mem, ptr, self.pbytes, st, want_ptr=True)
         if isinstance(rty, ir.IntTy):
             n = (rty.bits + 7) // 8
@@ -610,8 +620,11 @@ class Engine:
                 bs = [('p', val, k) for k in range(self.pbytes)]
             else:
                 v = self.ptr_to_bv(val)
-                bs = [simp(z3.Extract(8 * k + 7, 8 * k, v)) for k in range(self.pbytes)]
+                bs = [('x', v, k) for k in range(self.pbytes)]
             self.store_bytes(st, ptr, bs, ins)
+            if ptr.obj is None or ptr.obj.kind == 'extglobal':
+                base, off = self._addr_key(self.ptr_to_bv(ptr))
+                st.typed[(base, off, self.pbytes)] = self.ptr_to_bv(val)
             return
         if isinstance(rty, ir.IntTy):
             n = (rty.bits + 7) // 8
